@@ -201,7 +201,8 @@ def _blocks_st(features: set, wild: bool = False, depth: int = 3, max_blocks: in
         leaves.append(st.builds(
             lambda f, n, lang, txt: {"t": "code", "fence": f, "len": n, "lang": lang, "text": txt},
             st.sampled_from(["`", "~"]), st.integers(3, 5),
-            st.sampled_from(["", "", "python", "c++", "text", "none", "{unknownlang}x"]),
+            st.sampled_from(["", "", "python", "c++", "text", "none", "{unknownlang}x", "python title", "python\ttitle", "c  two  spaces",
+                             "text {1,3}"]),
             st.lists(st.one_of(text_run(wild, 0, 3), st.sampled_from(["", "  indented", "\tx", "# not heading",
                                                                        "> not quote", "- not list", "</div>"])),
                      max_size=4).map("\n".join)))
